@@ -38,7 +38,10 @@ Has(r, f) == f \in DOMAIN r
 \* ------------------------------------------------------------------ names
 \* The name universe in Go's string order (the driver logs sort.Strings of it and the
 \* judge compares: a wrong order here is a machinery failure, never a violation).
-NameOrder == <<"a", "b", "c", "count", "host", "max", "mean", "mx", "region", "x">>
+\* w01 .. w12 only occur in the wide schemas (more than 12 expanded columns: beyond the length up to which
+\* Go's sort.Sort is an insertion sort, i.e. happens to be stable)
+WideNames == <<"w01", "w02", "w03", "w04", "w05", "w06", "w07", "w08", "w09", "w10", "w11", "w12">>
+NameOrder == <<"a", "b", "c", "count", "host", "max", "mean", "mx", "region">> \o WideNames \o <<"x">>
 Names == ToSet(NameOrder)
 NameRank(n) == CHOOSE i \in DOMAIN NameOrder : NameOrder[i] = n
 SortNames(set) == SetToSortSeq(set, LAMBDA p, q : NameRank(p) < NameRank(q))
